@@ -213,29 +213,22 @@ class C07(Prop):
                 recorded += [cur] * max(e[1], 1)
                 tried += max(e[1], 1)
             if first:
-                recorded = [recorded[-1]] + recorded if len(recorded) == 1 else recorded
+                # the state reached by the first chain iteration is held one extra time (single-try: the first recorded state)
+                recorded = recorded + [recorded[-1]]
                 first = False
         exp = [(t[k]['mt'], t[k]['ln']) for k in recorded if t[k]['ln'] != NEG_INF]
         got = [(c['mt'], c['ln']) for c in impl['chain']]
-        single = all((e[0] == 'A' and e[1] == 0) or (e[0] == 'R' and e[1] <= 1) for e in impl['events'])
-        if single:
-            if exp != got:
-                i = next((i for i, (a, b) in enumerate(zip(exp, got)) if a != b), min(len(exp), len(got)))
-                out.append(('chain-entries', 'recorded chain (%d entries) is not "state after every tried proposal, first held once more" '
-                            '(%d expected); first difference at entry %d' % (len(got), len(exp), i), None))
-            if tried and impl['tried'] != tried:
-                out.append(('tried-count', 'reported %d tried proposals, the history has %d after learning' % (impl['tried'], tried), None))
-            if impl['ended'] and tried < C:
-                out.append(('stops-early', 'run ended after %d tried proposals, chain length is %d' % (tried, C), None))
-            if not impl['ended'] and tried >= C and len(impl['events']) == len(case['plan']):
-                out.append(('stops-late', 'run did not end although %d proposals were tried (chain length %d)' % (tried, C), None))
-        else:
-            # multiple-try iterations: every tried proposal must be recorded
-            n_exp = len(exp)
-            if tried and abs(len(got) - n_exp) > 1:
-                out.append(('multi-try-count', 'recorded %d entries for %d tried proposals' % (len(got), tried), None))
-            elif tried and len(got) not in (tried, tried + 1):
-                out.append(('multi-try-count', 'recorded %d entries for %d tried proposals' % (len(got), tried), None))
+        # states of zero likelihood (a random starting point that was never left) are not stored by the sample store
+        if exp != got:
+            i = next((i for i, (a, b) in enumerate(zip(exp, got)) if a != b), min(len(exp), len(got)))
+            out.append(('chain-entries', 'recorded chain (%d entries) is not "state after every tried proposal, first held once more" '
+                        '(%d expected); first difference at entry %d' % (len(got), len(exp), i), None))
+        if tried and impl['tried'] != tried:
+            out.append(('tried-count', 'reported %d tried proposals, the history has %d after learning' % (impl['tried'], tried), None))
+        if impl['ended'] and tried < C:
+            out.append(('stops-early', 'run ended after %d tried proposals, chain length is %d' % (tried, C), None))
+        if not impl['ended'] and tried >= C and len(impl['events']) == len(case['plan']):
+            out.append(('stops-late', 'run did not end although %d proposals were tried (chain length %d)' % (tried, C), None))
         # every entry carries the likelihood of exactly that source
         known = {(tk['mt'], tk['ln']) for tk in t}
         for c in impl['chain']:
